@@ -1,6 +1,7 @@
 import H3.Lemmas.E2ECompose
 import H3.Lemmas.E2ESplit
 import H3.Lemmas.E2EInter
+import H3.Lemmas.E2EPolls
 import H3.Props.C12
 import H3.Props.C14
 /-! # C01 — end-to-end message fidelity (composition theorem)
@@ -373,6 +374,42 @@ theorem C01_wire_of_send_in_any_run (m : Message) (h : Header) (hwf : WellFormed
   refine ⟨_, getStream_run steps st sid _ hsid hfresh, ?_, ?_⟩
   · rw [hproj, ← sendAll_eq_runS, a, streamBytes, wire_eq m h hwf.header]
   · rw [hproj, ← sendAll_eq_runS, b]
+
+/-- **(b) linked to delivery: `recvPattern` inside any schedule of single polls.**  The receive side
+    of a connection as in (b) — any number of request streams sharing the error cell, scripted
+    transports — under ANY schedule `σ` of single polls of single calls.  Every stream that is
+    scheduled at all carries a well-formed message (`Carries`: fresh component; a script with the
+    stream bytes of `m` in any non-empty chunks, `pend` anywhere, FIN; within the limit; the head
+    survives) and the polls scheduled for it are the polls the documented pattern makes
+    (`patternCalls`: each call polled again while it answers `Pending` and events are left — `await`
+    taken apart into its single polls).  Then for every such stream, in the interleaved run, the
+    answers it got — the `Pending` ones dropped — are exactly the answers of `recvPattern` on its own
+    script: the head, pieces of data, one `Ok(None)`, the trailers or `None`; decoded
+    (`deliver`), that is its own message; and the error cell is untouched.  No hypothesis about
+    errors: that no stream answers a connection error follows from the messages being well-formed
+    (`recvPattern_valid`), which discharges the hypothesis of `conn_run_projects`. -/
+theorem C01_recv_of_wire_in_any_schedule (H : Http) (role : Role) (L : Nat) (σ : List (Nat × RCall))
+    (k : Conn) (hcell : k.cell = none)
+    (hσ : ∀ i, callsFor σ i = [] ∨ ∃ m h out g script, Carries H role L k σ i m h out g script) :
+    (∀ i m h out g script, Carries H role L k σ i m h out g script →
+      settled (answersFor (Conn.run (fun _ => hdrOf H role L) k σ).1 i) =
+        traceAnswers (recvPattern role (hdrOf H role L) script) ∧
+      deliver H role L script =
+        { head := some out, body := m.pieces.flatten, cleanEnd := true, ends := 1,
+          trailers := some (m.trailers.map mapOf), env := {} }) ∧
+    (Conn.run (fun _ => hdrOf H role L) k σ).2.cell = none := by
+  have hno : ∀ i, ∀ a ∈ (isolated (hdrOf H role L) k.cell (k.comps i) (callsFor σ i)).1, isErrConn a = false := by
+    intro i a ha
+    rcases hσ i with h0 | ⟨m, h, out, g, script, c⟩
+    · rw [h0] at ha; cases ha
+    · exact (c.isolated hcell).2 a ha
+  obtain ⟨hall, hc⟩ := conn_run_projects (fun _ => hdrOf H role L) σ k hno
+  refine ⟨?_, by rw [hc, hcell]⟩
+  intro i m h out g script c
+  refine ⟨?_, deliver_streamBytes H role m h out L c.wf c.fits c.head g c.grease script c.scriptOK c.noReset
+    c.fin c.bytes⟩
+  rw [(hall i).1]
+  exact (c.isolated hcell).1
 
 /-! ## 6. split streams -/
 
@@ -766,6 +803,12 @@ example :
 
 /-! ### two exchanges on one connection, everything interleaved -/
 
+/-- two lists taken in turn -/
+def zip2 {α : Type} : List α → List α → List α
+  | [], b => b
+  | a, [] => a
+  | x :: a, y :: b => x :: y :: zip2 a b
+
 def decAwaited : ∀ (s : Stream) (calls : List (SOp × List Nat)), Decidable (Awaited s calls)
   | _, [] => isTrue trivial
   | s, c :: r =>
@@ -785,12 +828,6 @@ def cut (k : Nat) : Nat → List Nat → List (List Nat)
   | 0, _ => []
   | _, [] => []
   | fuel+1, w => w.take (max k 1) :: cut k fuel (w.drop (max k 1))
-
-/-- two lists taken in turn -/
-def zip2 {α : Type} : List α → List α → List α
-  | [], b => b
-  | a, [] => a
-  | x :: a, y :: b => x :: y :: zip2 a b
 
 /-- a task that is polled after every delivery on its stream: the call it polls is the one the
     documented pattern is at (`H3.Iso.APhase`), given what it has been answered so far -/
@@ -862,6 +899,11 @@ theorem wf₆ : WellFormed m₆ h₆ where
     exact ⟨by decide, by intro b hb; revert b; decide⟩
   blockLen := by decide +kernel
   trailerLen := by intro t ht; cases ht
+
+theorem values₆ : HeadValues toy .server m₆ :=
+  HeadValues.request m₆ GET ⟨some sHttps, some aCom, some slash⟩ none rfl (by decide)
+    (by intro s h; cases h; exact ⟨sHttps, by decide⟩) (by intro a h; cases h; exact ⟨aCom, by decide⟩)
+    (by intro x h; cases h; exact ⟨slash, by decide⟩) (by intro x h; cases h) (by intro h; cases h) (by decide)
 
 theorem ok₀ : x₀.Ok toy .server 1000 100 st₀ (sndOf evs₀) (rcvOf evs₀) where
   wf := wf₁
@@ -949,6 +991,89 @@ def isBodyPoll : Iso.Obs → Bool
 example : ((Iso.obsOf 0 (grun cfg₀ st₀ {} evs₀).2.2).filter isPendingAns).length = 4 ∧
     ((Iso.obsOf 0 (grun cfg₀ st₀ {} evs₀).2.2).filter isBodyPoll).length = 7 ∧ evs₀.length = 78 := by
   decide +kernel
+
+/-! ### two streams polled call by call in one schedule -/
+
+
+theorem scriptOK_of_all (sc : List Ev)
+    (h : sc.all (fun e => match e with | .chunk b => !b.isEmpty | _ => true) = true) : ScriptOK sc := by
+  intro b hb hne
+  subst hne
+  have := List.all_eq_true.mp h _ hb
+  simp at this
+
+theorem noReset_of_all (sc : List Ev)
+    (h : sc.all (fun e => match e with | .reset _ => false | _ => true) = true) : NoReset sc := by
+  intro c hc
+  have := List.all_eq_true.mp h _ hc
+  simp at this
+
+/-- `wire m₆` in 3-byte chunks with polls that find nothing in between -/
+def script₆ : List Ev :=
+  [.pend, .chunk ((wire m₆).take 3), .pend, .chunk (((wire m₆).drop 3).take 3), .chunk ((wire m₆).drop 6), .pend, .fin]
+
+def hd₀ : Hdr := hdrOf toy .server 1000
+
+/-- the schedule: the single polls of the two streams' patterns, taken in turn -/
+def σ₀ : List (Nat × RCall) :=
+  zip2 ((patternCalls .server hd₀ { src := ({}, script₁) }).map (fun c => (0, c)))
+    ((patternCalls .server hd₀ { src := ({}, script₆) }).map (fun c => (4, c)))
+
+def k₀ : Conn :=
+  { cell := none
+    comps := fun i => if i = 0 then { src := ({}, script₁) } else if i = 4 then { src := ({}, script₆) }
+      else { src := ({}, []) } }
+
+theorem carries₀ : Carries toy .server 1000 k₀ σ₀ 0 m₁ h₁ out₁ none script₁ where
+  wf := wf₁
+  fits := ⟨by decide +kernel, by intro t ht; cases ht; decide +kernel⟩
+  head := C01_head_survives toy toy_laws toy_rt .server m₁ h₁ wf₁.header values₁
+  grease := by intro n h; cases h
+  scriptOK := scriptOK_of_all _ (by decide +kernel)
+  noReset := noReset_of_all _ (by decide +kernel)
+  fin := by decide +kernel
+  bytes := by decide +kernel
+  comp := rfl
+  calls := by decide +kernel
+
+theorem carries₄ : Carries toy .server 1000 k₀ σ₀ 4 m₆ h₆ (expectedHead m₆) none script₆ where
+  wf := wf₆
+  fits := ⟨by decide +kernel, by intro t ht; cases ht⟩
+  head := C01_head_survives toy toy_laws toy_rt .server m₆ h₆ wf₆.header values₆
+  grease := by intro n h; cases h
+  scriptOK := scriptOK_of_all _ (by decide +kernel)
+  noReset := noReset_of_all _ (by decide +kernel)
+  fin := by decide +kernel
+  bytes := by decide +kernel
+  comp := rfl
+  calls := by decide +kernel
+
+/-- `C01_recv_of_wire_in_any_schedule` applied: 12 single polls of two streams in turn; stream 0 is
+    answered head, `01`, `02 03`, `04 05`, `None`, trailers; stream 4 is answered `Pending` twice (its
+    script begins with a poll that finds nothing, and another follows the first chunk), then its
+    head, `07`, `None`, no trailers -/
+example :
+    settled (answersFor (Conn.run (fun _ => hd₀) k₀ σ₀).1 0) =
+      [.head (fieldSection h₁), .data [1], .data [2, 3], .data [4, 5], .end_, .trailers (trailerSection [([122], [57])])] ∧
+    settled (answersFor (Conn.run (fun _ => hd₀) k₀ σ₀).1 4) =
+      [.head (fieldSection h₆), .data [7], .end_, .noTrailers] ∧
+    answersFor (Conn.run (fun _ => hd₀) k₀ σ₀).1 4 =
+      [.pending, .pending, .head (fieldSection h₆), .data [7], .end_, .noTrailers] ∧ σ₀.length = 12 := by
+  have hσ : ∀ i, callsFor σ₀ i = [] ∨ ∃ m h out g script, Carries toy .server 1000 k₀ σ₀ i m h out g script := by
+    intro i
+    by_cases h0 : i = 0
+    · subst h0; exact Or.inr ⟨_, _, _, _, _, carries₀⟩
+    · by_cases h4 : i = 4
+      · subst h4; exact Or.inr ⟨_, _, _, _, _, carries₄⟩
+      · left
+        have hall : ∀ e ∈ σ₀, e.1 = 0 ∨ e.1 = 4 := by decide +kernel
+        unfold callsFor
+        rw [List.map_eq_nil_iff, List.filter_eq_nil_iff]
+        intro e he
+        rcases hall e he with h | h <;> simp [h, Ne.symm h0, Ne.symm h4]
+  have h := (C01_recv_of_wire_in_any_schedule toy .server 1000 σ₀ k₀ rfl hσ).1 0 m₁ h₁ out₁ none script₁ carries₀
+  have h' := (C01_recv_of_wire_in_any_schedule toy .server 1000 σ₀ k₀ rfl hσ).1 4 m₆ h₆ _ none script₆ carries₄
+  exact ⟨h.1.trans (by decide +kernel), h'.1.trans (by decide +kernel), by decide +kernel, by decide +kernel⟩
 
 end examples
 
